@@ -115,6 +115,20 @@ fn controlled() -> Option<usize> {
     managed_tid()
 }
 
+/// A mutating call on a tracked file by a thread the scheduler does not manage,
+/// while an execution is running: the code under test has started a thread of
+/// its own. The call goes through; the scheduler records it.
+fn note_unmanaged(kind: &str, name: &str) {
+    if !sched::active() || managed_tid().is_some() {
+        return;
+    }
+    if INSIDE.try_with(|i| i.get()).unwrap_or(true) {
+        return;
+    }
+    let _g = Guard::enter();
+    sched::note_unmanaged_fs(format!("{}({})", kind, name));
+}
+
 struct Guard;
 impl Guard {
     fn enter() -> Guard {
@@ -316,7 +330,16 @@ pub unsafe extern "C" fn write(fd: c_int, buf: *const c_void, n: size_t) -> ssiz
             set_errno(e);
             r
         }
-        _ => libc::syscall(libc::SYS_write, fd, buf, n) as ssize_t,
+        _ => {
+            if sched::active() && fd > 2 {
+                if let Some(inf) = fd_info(fd) {
+                    if inf.name.ends_with(".wal") {
+                        note_unmanaged("write", &inf.name);
+                    }
+                }
+            }
+            libc::syscall(libc::SYS_write, fd, buf, n) as ssize_t
+        }
     }
 }
 
@@ -467,6 +490,12 @@ pub unsafe extern "C" fn unlink(path: *const c_char) -> c_int {
             sched::fs_done(tid, call, r as i64, e);
             set_errno(e);
             r
+        }
+        (None, Some(inf)) => {
+            if inf.name.ends_with(".wal") {
+                note_unmanaged("unlink", &inf.name);
+            }
+            libc::syscall(libc::SYS_unlinkat, libc::AT_FDCWD, path, 0) as c_int
         }
         _ => libc::syscall(libc::SYS_unlinkat, libc::AT_FDCWD, path, 0) as c_int,
     }
